@@ -139,7 +139,7 @@ def run(ctx):
         return
     core.build_harness(bins=["solve"])
     rng = ctx.rng
-    progs, cases = gen_cases(rng, ctx.n(12, 600), ctx.n(5, 9))
+    progs, cases = gen_cases(rng, ctx.n(10, 500), ctx.n(5, 9), ctx.n(3, 5))
     by_prog = collections.OrderedDict()
     for c in cases:
         by_prog.setdefault(c.pidx, []).append(c)
